@@ -46,6 +46,7 @@ def main(tier):
             kind, parts = r2.choice(BROKEN)
             inp.insert(r2.randrange(len(inp) + 1), (f"broken_{kind}_{j}", parts))
         job = {"repo": common.REPO, "seed": f"{run.seed}:{k}", "pool_size": sizes[k % len(sizes)], "max_delay": 0.08 if sizes[k % len(sizes)] > 1 else 0.0, "input": inp}
+        job["tuple_names"] = [nm for nm, parts in inp if r2.random() < (0.5 if len(parts) == 2 else 0.1)]
         if k % 2 == 1:
             # a second and third call in the same process: same names, some with another behaviour (valid -> broken, broken -> valid,
             # valid -> another instruction's text, one part -> two parts); a call must not depend on earlier calls
